@@ -6,7 +6,7 @@ LEVEL_TEXT = ("Relational contracts: the real high-level function on overlapping
 import importlib.util, os
 _spec = importlib.util.spec_from_file_location("plan_C05_for_C11", os.path.join(os.path.dirname(__file__), "C05.py"))
 _c05 = importlib.util.module_from_spec(_spec); _spec.loader.exec_module(_c05)
-BELT = ["src/crypto/belt/belt_%s.c" % m for m in ("ecb", "cbc", "cfb", "ctr", "kwp", "wbl", "sde", "lcl", "block")] + \
+BELT = ["src/crypto/belt/belt_%s.c" % m for m in ("ecb", "cbc", "cfb", "ctr", "kwp", "wbl", "sde", "dwp", "che", "lcl", "block")] + \
        ["src/core/der.c", "src/core/mem.c", "src/core/util.c", "src/core/blob.c", "src/core/str.c", "src/core/oid.c", "src/core/u32.c", "src/core/u64.c", "src/core/u16.c", "src/core/word.c"]
 UF = {"crypto/belt/belt_block.c": ["beltBlockEncr", "beltBlockEncr2", "beltBlockEncr3", "beltBlockDecr", "beltBlockDecr2", "beltBlockDecr3"]}
 GROUPS = [g for g in _c05.GROUPS if g["name"].startswith(("mem_join", "mem_move"))]
@@ -19,7 +19,7 @@ for f in FN:
 # CBMC forms of these groups (symbolic placements, uninterpreted cipher) were measured: cbc_e 64 s, ctr/kwp no answer in 400 s
 # under load, and blobClose's wipe of the page-rounded blob needs ~1000 unwindings; they are not registered.
 GROUPS.append(G("overlap.aux.search", "harness/C11/belt_overlap.c", "h_aux", BELT, defs=["LEN=20"], level="N", backend="native", search=150000,
-                fn=["beltSDEEncr", "beltSDEDecr", "beltKWPUnwrap", "derTUINTEnc"],
+                fn=["beltSDEEncr", "beltSDEDecr", "beltKWPUnwrap", "derTUINTEnc", "beltKeyExpand", "beltDWPWrap", "beltCHEWrap"],
                 note="native: IV / header / value placed inside the output region; NOT proof"))
 TRUSTED = ["stubs/belt_uf.c: uninterpreted block function"]
 ASSUMPTIONS = ["keys are placed outside the output region; IV / header / value inside it only in overlap.aux"]
